@@ -55,6 +55,7 @@ func parseGroups(doc *yaml.Node, schema Schema, offsetLine, offsetColumn int, co
 			}
 		}
 
+		var groupsKeySet bool
 		for _, entry := range mappingNodes(node) {
 			if entry.key.ShortTag() != strTag {
 				return nil, ParseError{
@@ -74,6 +75,13 @@ func parseGroups(doc *yaml.Node, schema Schema, offsetLine, offsetColumn int, co
 					Err:  fmt.Errorf("groups value must be a %s, got %s", describeTag(seqTag), describeTag(entry.val.ShortTag())),
 				}
 			}
+			if groupsKeySet {
+				return nil, ParseError{
+					Line: entry.key.Line,
+					Err:  fmt.Errorf("duplicated key %s", entry.key.Value),
+				}
+			}
+			groupsKeySet = true
 			for _, group := range unpackNodes(entry.val) {
 				g := parseGroup(group, schema, offsetLine, offsetColumn, contentLines)
 				if _, ok := names[g.Name]; ok {
@@ -162,7 +170,13 @@ func parseGroup(node *yaml.Node, schema Schema, offsetLine, offsetColumn int, co
 				}
 				return group
 			}
-			group.Limit, _ = strconv.Atoi(nodeValue(entry.val))
+			if group.Limit, err = strconv.Atoi(nodeValue(entry.val)); err != nil {
+				group.Error = ParseError{
+					Line: entry.key.Line,
+					Err:  fmt.Errorf("invalid %s value: %w", entry.key.Value, err),
+				}
+				return group
+			}
 		case "labels":
 			if entry.val.ShortTag() != mapTag {
 				group.Error = ParseError{
